@@ -1,6 +1,8 @@
 (** C18 -- IndexClassification::prepare called again on the same object (supported since repository commit
     1fd1f00: "A repeated call starts from scratch").  PV.Index models one call on a freshly constructed object;
-    this file models the object state across calls.
+    this file models the object state across calls (the header of Index.v, "Not modelled: calling prepare() twice",
+    describes the code before that commit: the behaviour it mentions is [prepare_body] without the [reset], see
+    IndexReprepareProofs.second_call_without_reset_fails).
 
     The object state is the three members (IndexSize, IndicesToInfo, InfoToIndices) = [Index.table].
     - constructor (cpp:33-35): IndexSize(0), both containers empty: [constructed].
